@@ -1,6 +1,7 @@
 (* SrcTie.v — Tie A: what tools/src2v.py regenerated from /repo's working tree (gen/Src.v)
    equals what the model uses.  A source edit to a translated constant or kernel breaks one
    of these lemmas at `make` time. *)
+From MLA Require Import Limit.
 From MLA Require Import Base Stream EncLayer CompLayer.
 From MLAGen Require Src.
 From Coq Require Import ZifyBool ZifyNat ZifyN.
@@ -37,6 +38,7 @@ Proof. repeat split; vm_compute; try reflexivity; discriminate. Qed.
 
 (* ---- kernels ---- *)
 Section Kernels.
+  Context {LIM : Limit}.
   Variables CHUNK TAG U : N.
 
   Lemma notag2tag_eq p :
